@@ -18,7 +18,8 @@
 //!   * a set-block / filter section captures exactly the text its body writes, applies the
 //!     filters and assigns / writes the result;
 //!   * a template with a parent renders its root ancestor with every block replaced by the most
-//!     derived definition (enough for the include-of-extending-template family; no `super()`).
+//!     derived definition; `super()` renders the next definition up the chain. This holds for a
+//!     top-level render and for an `include` alike (flat blocks only; C04 owns inheritance).
 //!
 //! Static rules (`check`): `break` / `continue` need an enclosing loop body in the same
 //! template and may not cross a set-block / filter section boundary; blocks may not be written
@@ -28,7 +29,7 @@
 //! &Bindings, &Opts)`, `admissible(&Program, entry, &Bindings)` (all outcomes over the
 //! unspecified choices: map iteration order, key-or-value for a single loop variable over a
 //! map), their `*_checked` forms for a program that already passed `check`,
-//! `render_ignoring_parents`, `truthy(&V)`, `display(&V)`.
+//! `render_with_old_include_of_extending`, `truthy(&V)`, `display(&V)`.
 #![allow(dead_code)]
 
 use super::stmt::{Bindings, Expr, Filter, LoopField, Program, Stmt, Template};
@@ -79,11 +80,15 @@ pub struct Opts {
     /// `{% for v in map %}` binds the key instead of the value (the documentation only shows
     /// the `key, value` form for maps; both readings are tried by `admissible`).
     pub single_var_over_map_is_key: bool,
+    /// NOT a documented reading: an included template that extends starts from its own body
+    /// instead of its root ancestor's (the engine's behaviour before the repair b2aa72a). Only
+    /// used to *recognise* that defect under its own signature, never as an expectation.
+    pub include_starts_from_own_body: bool,
 }
 
 impl Default for Opts {
     fn default() -> Self {
-        Opts { single_var_over_map_is_key: false }
+        Opts { single_var_over_map_is_key: false, include_starts_from_own_body: false }
     }
 }
 
@@ -152,7 +157,7 @@ pub fn check(p: &Program) -> Result<(), String> {
 fn check_body(body: &[Stmt], lex: &mut Vec<Lex>, blocks: &mut Vec<String>) -> Result<(), String> {
     for st in body {
         match st {
-            Stmt::Text(_) | Stmt::Print(_) | Stmt::Set { .. } | Stmt::Include(_) => {}
+            Stmt::Text(_) | Stmt::Print(_) | Stmt::Set { .. } | Stmt::Include(_) | Stmt::Super => {}
             Stmt::Break | Stmt::Continue => {
                 let mut ok = false;
                 for l in lex.iter().rev() {
@@ -231,6 +236,8 @@ struct Frame<'p> {
     assigns: BTreeMap<String, V>,
     /// most-derived-first chain of the template being rendered (for blocks)
     chain: Vec<&'p Template>,
+    /// blocks being rendered: (definitions most derived first, index of the one executing)
+    blocks: Vec<(Vec<&'p [Stmt]>, usize)>,
 }
 
 enum Flow {
@@ -497,17 +504,41 @@ impl<'p> Interp<'p> {
                 let tpl = program.get(name).unwrap_or_else(|| panic!("generator bug: include of missing {name}"));
                 // a fresh activation that reads through the includer's scopes and writes into
                 // the includer's current sink; nothing it assigns survives
-                self.frames.push(Frame { loops: vec![], assigns: BTreeMap::new(), chain: chain_of(program, tpl) });
-                let r = self.render_frame();
+                self.frames.push(Frame { loops: vec![], assigns: BTreeMap::new(), chain: chain_of(program, tpl), blocks: vec![] });
+                let r = if self.opts.include_starts_from_own_body {
+                    self.exec_body(&tpl.body).map(|_| ())
+                } else {
+                    self.render_frame()
+                };
                 let child = self.frames.pop().unwrap();
                 r?;
                 self.stats.dropped_bindings += child.assigns.len() as u32;
             }
             Stmt::Block { name, body } => {
-                // most derived definition in the chain of the template being rendered
-                let chosen: Option<&'p [Stmt]> = self.cur().chain.iter().find_map(|t| find_block(&t.body, name));
-                let b = chosen.unwrap_or(body);
-                return self.exec_body(b);
+                // every definition of the block in the chain of the template being rendered,
+                // most derived first; the first one is rendered, `super()` walks up
+                let mut lineage: Vec<&'p [Stmt]> =
+                    self.cur().chain.iter().filter_map(|t| find_block(&t.body, name)).collect();
+                if lineage.is_empty() {
+                    lineage.push(body);
+                }
+                let first = lineage[0];
+                self.cur().blocks.push((lineage, 0));
+                let r = self.exec_body(first);
+                self.cur().blocks.pop();
+                return r;
+            }
+            Stmt::Super => {
+                let Some((lineage, level)) = self.cur().blocks.last().cloned() else {
+                    return Err("super() outside of a block".into());
+                };
+                if level + 1 >= lineage.len() {
+                    return Err("super() in the top-level definition of the block".into());
+                }
+                self.cur().blocks.last_mut().unwrap().1 = level + 1;
+                let r = self.exec_body(lineage[level + 1]);
+                self.cur().blocks.last_mut().unwrap().1 = level;
+                return r;
             }
         }
         Ok(Flow::Normal)
@@ -573,7 +604,7 @@ pub fn render_checked(p: &Program, entry: &str, b: &Bindings, opts: &Opts) -> (O
         opts: *opts,
         stats: Stats::default(),
         sinks: vec![String::new()],
-        frames: vec![Frame { loops: vec![], assigns: BTreeMap::new(), chain: chain_of(p, tpl) }],
+        frames: vec![Frame { loops: vec![], assigns: BTreeMap::new(), chain: chain_of(p, tpl), blocks: vec![] }],
     };
     let r = it.render_frame();
     let out = match r {
@@ -583,14 +614,11 @@ pub fn render_checked(p: &Program, entry: &str, b: &Bindings, opts: &Opts) -> (O
     (out, it.stats)
 }
 
-/// What rendering only the template's own top-level nodes (ignoring its parent) would give —
-/// used to recognise the known finding F-include-extends, never as an expectation.
-pub fn render_ignoring_parents(p: &Program, entry: &str, b: &Bindings) -> Outcome {
-    let mut q = p.clone();
-    for t in &mut q.templates {
-        t.extends = None;
-    }
-    render(&q, entry, b, &Opts::default()).0
+/// What the engine gave before the repair b2aa72a (an included template that extends renders
+/// only its own top-level nodes) — used to recognise that defect under its own signature, never
+/// as an expectation.
+pub fn render_with_old_include_of_extending(p: &Program, entry: &str, b: &Bindings) -> Outcome {
+    render(p, entry, b, &Opts { include_starts_from_own_body: true, ..Opts::default() }).0
 }
 
 fn has_single_var_loop(p: &Program) -> bool {
@@ -654,7 +682,7 @@ pub fn admissible_checked(p: &Program, entry: &str, b: &Bindings) -> (Vec<Outcom
     let mut stats = None;
     for reading in readings {
         for v in &variants {
-            let (o, s) = render_checked(p, entry, v, &Opts { single_var_over_map_is_key: *reading });
+            let (o, s) = render_checked(p, entry, v, &Opts { single_var_over_map_is_key: *reading, ..Opts::default() });
             if stats.is_none() {
                 stats = Some(s);
             }
